@@ -568,3 +568,119 @@ def fake_socks_proxy(c, a, rec):
         else:
             c.sendall(b'\x00\x5a\0\0\0\0\0\0')
             _echo_loop(c)
+
+
+# ------------------------------------------------------------------ UDP helpers
+
+CERTS = '/verif/target/certs'
+
+
+def ensure_certs():
+    if not os.path.exists(f'{CERTS}/done'):
+        subprocess.run(['/verif/bin/mkcerts'], check=True)
+
+
+def rpfm_addr(host, port):
+    try:
+        return bytes([1, 6]) + socket.inet_aton(host) + struct.pack('>H', port)
+    except OSError:
+        pass
+    try:
+        return bytes([2, 18]) + socket.inet_pton(socket.AF_INET6, host) + struct.pack('>H', port)
+    except OSError:
+        pass
+    hb = host.encode()
+    return bytes([3, len(hb) + 2]) + hb + struct.pack('>H', port)
+
+
+def rpfm_frame(session, host, port, body):
+    a = rpfm_addr(host, port) if host is not None else b''
+    return b'RPFM' + struct.pack('>IHH', session, len(a), len(body)) + a + body
+
+
+def rpfm_read(sock, timeout=3.0):
+    """reads one frame from a stream socket: returns (session, addr(str)|None, body) or None on timeout/EOF"""
+    h = recv_exact(sock, 12, timeout)
+    if len(h) < 12 or h[:4] != b'RPFM':
+        return None
+    session, al, bl = struct.unpack('>IHH', h[4:12])
+    rest = recv_exact(sock, al + bl, timeout)
+    if len(rest) < al + bl:
+        return None
+    attr, body = rest[:al], rest[al:]
+    addr = None
+    if al >= 2:
+        t, l = attr[0], attr[1]
+        v = attr[2:2 + l]
+        if t == 1 and len(v) == 6:
+            addr = f'{socket.inet_ntoa(v[:4])}:{struct.unpack(">H", v[4:])[0]}'
+        elif t == 2 and len(v) == 18:
+            addr = f'[{socket.inet_ntop(socket.AF_INET6, v[:16])}]:{struct.unpack(">H", v[16:])[0]}'
+        elif t == 3 and len(v) >= 2:
+            addr = f'{v[:-2].decode("utf8", "replace")}:{struct.unpack(">H", v[-2:])[0]}'
+    return session, addr, body
+
+
+def socks_udp_decode(d):
+    """returns (addr str, payload) of a SOCKS5 UDP datagram"""
+    if len(d) < 4:
+        return None, d
+    at = d[3]
+    if at == 1 and len(d) >= 10:
+        return f'{socket.inet_ntoa(d[4:8])}:{struct.unpack(">H", d[8:10])[0]}', d[10:]
+    if at == 4 and len(d) >= 22:
+        return f'[{socket.inet_ntop(socket.AF_INET6, d[4:20])}]:{struct.unpack(">H", d[20:22])[0]}', d[22:]
+    if at == 3 and len(d) >= 5:
+        l = d[4]
+        return f'{d[5:5 + l].decode("utf8", "replace")}:{struct.unpack(">H", d[5 + l:7 + l])[0]}', d[7 + l:]
+    return None, d
+
+
+class UdpOrigin:
+    """UDP echo origin on 127.0.0.1 and ::1 (same port): logs every datagram, replies with b'R' + payload"""
+
+    def __init__(self, reply=True):
+        self.s4 = socket.socket(socket.AF_INET, socket.SOCK_DGRAM)
+        self.s4.bind(('127.0.0.1', 0))
+        self.port = self.s4.getsockname()[1]
+        self.s6 = socket.socket(socket.AF_INET6, socket.SOCK_DGRAM)
+        try:
+            self.s6.bind(('::1', self.port))
+        except OSError:
+            self.s6 = None
+        for s in (self.s4, self.s6):
+            if s:
+                s.setsockopt(socket.SOL_SOCKET, socket.SO_RCVBUF, 4 << 20)
+        self.rx = []  # (family, payload, from)
+        self.lock = threading.Lock()
+        self.reply = reply
+        for s, fam in ((self.s4, 4), (self.s6, 6)):
+            if s:
+                threading.Thread(target=self._loop, args=(s, fam), daemon=True).start()
+
+    def _loop(self, s, fam):
+        while True:
+            try:
+                d, a = s.recvfrom(70000)
+            except OSError:
+                return
+            with self.lock:
+                self.rx.append((fam, d, a))
+            if self.reply:
+                try:
+                    s.sendto(b'R' + d, a)
+                except OSError:
+                    pass
+
+    def count(self, payload, peers=None):
+        with self.lock:
+            return sum(1 for (_, d, a) in self.rx if d == payload and (peers is None or a[:2] in peers))
+
+    def peers_of(self, payload):
+        with self.lock:
+            return set(a[:2] for (_, d, a) in self.rx if d == payload)
+
+    def stop(self):
+        for s in (self.s4, self.s6):
+            if s:
+                s.close()
